@@ -69,7 +69,7 @@ class C11(scen.WorldProp):
         return ("after-accompanied:" if "humans_before" in req else "") + super().tag(req, reply)
 
     def cases(self, rng, tier):
-        n = 60 if tier == "quick" else 500
+        n = 200 if tier == "quick" else 1500
         for i in range(n):
             if i % 5 == 4:
                 yield self.after_accompanied(rng, tier)
